@@ -452,7 +452,7 @@ Proof.
   intros Hinv Hheld Hrel. unfold on_message, try_catch.
   assert (Hid : lpost GS s s) by (apply lpost_same; [tc|auto..]).
   destruct (m_type msg) as [t|].
-  - set (s0 := set_log s (LFrame c (FAck (m_id msg)) (is_clean s) :: log s)).
+  - set (s0 := set_log s (LFrame c (FAck (m_id msg)) (is_clean s) (now s) :: log s)).
     rewrite (bind_ok _ _ s tt s0) by reflexivity.
     assert (H : lpost GS s0 (out (dispatch cfg c t msg o s0))).
     { apply dispatch_lp; [exact Hinv|exact Hheld|]. intros ->. exact (Hrel eq_refl). }
@@ -1046,7 +1046,7 @@ Proof.
     rewrite H1, H2, H3, Z.eqb_refl, seqb_refl. reflexivity.
 Qed.
 
-Definition cl_cfg : config := mkCfg true false None 5280 2400.
+Definition cl_cfg : config := mkCfg true false None 5280 2400 (mkWelcome None None None).
 Lemma cl_exp : 0 < exp cl_cfg.
 Proof. reflexivity. Qed.
 Definition cl_o0 : oracle := mkOracle None (mkAO None []).
